@@ -61,6 +61,11 @@ func unitsFor(prop, tier string) []Unit {
 			us = append(us, Unit{Prop: prop, Tier: tier, Kind: "x1", Index: i, Name: "x1/" + sc.Name})
 		}
 	}
+	if prop == "C09" {
+		for i, c := range crashCases(tier) {
+			us = append(us, Unit{Prop: prop, Tier: tier, Kind: "crashfs", Index: i, Name: "crashfs/" + c.Name})
+		}
+	}
 	for i, c := range x2Configs(prop, tier) {
 		us = append(us, Unit{Prop: prop, Tier: tier, Kind: "x2", Index: i, Name: "x2/" + c.Name})
 	}
@@ -120,6 +125,8 @@ func runUnit(u Unit) UnitResult {
 		return total
 	case "x2":
 		return runX2Unit(u, x2Configs(u.Prop, u.Tier)[u.Index])
+	case "crashfs":
+		return runCrashUnit(u)
 	}
 	panic("unknown unit kind " + u.Kind)
 }
